@@ -599,10 +599,28 @@ func (ld *Loaded) analyseRunPoll(rs *runShape, bad func(ob, msg string, a ...int
 // the flag is seen (rely).  That rely is what C13's protocol obligations
 // establish for the mechanisms they know; for any other mechanism the proof
 // of Run rests on nothing and the check is undecided.
-func (r *Run) relyOnRunProtocol(ld *Loaded) {
-	if rs := ld.analyseRun(); len(rs.unrecognised) > 0 {
+func (r *Run) relyOnRunProtocol(ld *Loaded, own bool) {
+	rs := ld.analyseRun()
+	if len(rs.unrecognised) > 0 {
 		r.Undecided = append(r.Undecided, "Run's proof relies on the cancellation protocol between Run and its watcher, which the structural analysis (C13) does not recognise here: "+strings.Join(rs.unrecognised, "; "))
 	}
+	// the premise itself is an obligation of every property whose Run proof
+	// rests on it (not only of C13): a watcher that captures or writes the CPU
+	// breaks "Run performs the transitions of repeated Step" as well
+	probs := append([]string{}, rs.problems["Run/shared/protocol"]...)
+	probs = append(probs, rs.problems["Run/shape"]...)
+	if len(rs.unrecognised) > 0 && len(probs) == 0 {
+		return
+	}
+	if !own {
+		// a property that only uses Run (C18): with the premise gone its Run
+		// proof says nothing - undecided, the violation is C08's / C13's to report
+		if len(probs) > 0 {
+			r.Undecided = append(r.Undecided, "Run's proof relies on the cancellation protocol between Run and its watcher, which does not hold here (reported by C08 and C13): "+strings.Join(probs, "; "))
+		}
+		return
+	}
+	r.structural(ld, "Run/shared/protocol", probs, "the watcher goroutine captures only the two contexts, the published error and the flag; the flag is accessed atomically; the error is read only behind the flag")
 }
 
 func (r *Run) structural(ld *Loaded, name string, probs []string, okNote string) {
@@ -834,14 +852,14 @@ func (ld *Loaded) runHaltReturns2() (probs []string, found bool) {
 
 func init() {
 	checks["C08"] = func(ld *Loaded, r *Run) {
-		r.relyOnRunProtocol(ld)
+		r.relyOnRunProtocol(ld, true)
 		r.verifyHelpers(ld, func(c *Contract) bool { return !ownsProp(c, "C08") })
 		r.establishStepFrame(ld)
 		r.verifyHelpers(ld, propFilter("C08"))
 		r.structural(ld, "Run/footprint", ld.runFootprint(), "Run itself writes only cpu.HALT=false, reads only BreakPoints, PC, HALT, and calls only Step")
 		r.structural(ld, "Run/halt/returns", ld.runHaltReturns(), "")
 		r.checkLemmas(ld, "C08")
-		r.Assumptions["C08: the watcher goroutine touches only its own cells (checked: Run/shared/protocol in C13); loads from those cells return arbitrary values in Run's proof"] = true
+		r.Assumptions["C08: the watcher goroutine touches only its own cells (obligation Run/shared/protocol, also part of C13); loads from those cells return arbitrary values in Run's proof"] = true
 		r.Assumptions["C08: 'performs the same transitions as repeated Step' = the loop body's only effect on the CPU is one call of Step (frame of the loop + footprint); the induction over iterations is the loop rule"] = true
 	}
 	checks["C13"] = func(ld *Loaded, r *Run) {
